@@ -59,7 +59,7 @@ def write_read(recs, blocked, api, fobj='bytesio'):
         # and the produced bytes read back from a real file, a non-seekable stream or an object with only read();
         # 'blocked' is passed positionally here
         from vf import fileobjs
-        f, content, done = fileobjs.writer('file')
+        f, content, done = fileobjs.writer('legacy' if (len(recs) + len(recs[0])) % 2 else 'file')
         try:
             if api == 'class_close':
                 w = mciipm.VbsWriter(f, blocked)
@@ -189,7 +189,11 @@ def tasks(tier, seed):
     # (f) other kinds of file object; files beyond 1 MiB (nothing in the statement bounds the size)
     q = [1, 4, 1004, 1008, 1012, 2020, 6000]
     fl = [[a] for a in q] + [[a, b] for a in q for b in q] + [[250] * 100]
-    items = [{'lens': lens, 'fobj': ('file', 'pipe', 'minimal')[i % 3]} for i, lens in enumerate(fl)]
+    kinds = ('file', 'pipe', 'minimal', 'smallbuf', 'zip', 'mmap')
+    items = [{'lens': lens, 'fobj': kinds[i % 6]} for i, lens in enumerate(fl)]
+    # record COUNTS beyond 10 000 (a counter, a progress message, a periodic flush ...) on every kind of reader
+    items += [{'lens': [3] * 12000, 'fobj': k} for k in ('bytesio',) + kinds]
+    items += [{'lens': [1] * 70000, 'fobj': 'pipe'}, {'lens': [2] * 33000, 'fobj': 'minimal'}]
     items += [{'lens': [6000] * 180, 'fobj': k} for k in ('bytesio', 'file', 'pipe')]
     items += [{'lens': [5000] * 420, 'fobj': 'bytesio'}, {'lens': [997] * 2100, 'fobj': 'minimal'}]
     for ch in core.spread(items, 16):
